@@ -65,7 +65,7 @@ def bytes_to_blocks(
     # args
     found_varnames = ToArgs(varnames, {i: i for i in range(len(args.parameters))})
     found_cellvars = ToArgs(cellvars)
-    found_constants = ToArgs(constants)
+    found_constants = ToArgs(constants, _hash_fn=constant_key)
 
     # If we have a function block and a docstring, the first constant is the docstring.
     if isinstance(block_type, Function) and block_type.docstring is not None:
@@ -371,11 +371,20 @@ class ToArgs(Generic[T]):
     # Mapping of the actual index argument to the position it was
     # found
     _index_to_order: dict[int, int] = field(default_factory=dict)
+    # The same function the encoder uses to identify equal args
+    _hash_fn: Callable[[T], Hashable] = field(default=hash)
+    # Mapping from hash of argument to the first index it was found at
+    _arg_to_first_index: dict[Hashable, int] = field(default_factory=dict)
 
     def found_index(self, index: int) -> tuple[T, Optional[int]]:
         if index not in self._index_to_order:
-            self._index_to_order[index] = len(self._args)
-        wrong_position = self._index_to_order[index] != index
+            self._index_to_order[index] = len(self._index_to_order)
+        # If an equal arg was already found at another index, then without an
+        # override the encoder would re-use that index instead of this one.
+        first_index = self._arg_to_first_index.setdefault(
+            self._hash_fn(self._args[index]), index
+        )
+        wrong_position = self._index_to_order[index] != index or first_index != index
         return self._args[index], index if wrong_position else None
 
     def __len__(self) -> int:
@@ -398,7 +407,8 @@ class FromArgs(Generic[T]):
         if i in self._i_to_arg:
             assert self._i_to_arg[i] == arg
         self._i_to_arg[i] = arg
-        self._arg_to_i[self._hash_fn(arg)] = i
+        # Equal args resolve to the first index they were stored at
+        self._arg_to_i.setdefault(self._hash_fn(arg), i)
 
     def __len__(self) -> int:
         return len(self._i_to_arg)
